@@ -104,6 +104,9 @@ def units(tier):
             continue
         for sh in range(2 if tier == 'quick' else 8):
             out.append({'fam': 'grouped', 'cfg': ci, 'Lk': 2 if tier == 'quick' else 3, 'shard': [sh, 2 if tier == 'quick' else 8]})
+            # the same histories under two levels of group_by: two outer groups, each with an inner group of the same key value
+            # (group indices must be unique per store, not per parent)
+            out.append({'fam': 'nested', 'cfg': ci, 'Lk': 2 if tier == 'quick' else 3, 'shard': [sh, 2 if tier == 'quick' else 8]})
     return out
 
 
@@ -143,7 +146,7 @@ def cases(unit):
                     for fl in itertools.product([0, 1] if c is not None else [0], repeat=len(order)):
                         idx += 1
                         if idx % n == sh:
-                            yield {'fam': 'grouped', 'cfg': unit['cfg'], 'order': order, 'gaps': list(gaps), 'flags': list(fl)}
+                            yield {'fam': unit['fam'], 'cfg': unit['cfg'], 'order': order, 'gaps': list(gaps), 'flags': list(fl)}
 
 
 def viol(fam, sym, detail):
@@ -240,6 +243,9 @@ def run_case(case, acc):
             pos[g] = pos.get(g, 0) + 1
         opspecs.FUNCS.setdefault('grp', lambda x: (x // 1000) % 10)
         spec = [['group_by', 'grp', [['time_split', a, i, c, inc, INNER, 'ts_int']]]]
+        if fam == 'nested':
+            opspecs.FUNCS.setdefault('zero', lambda x: 0)
+            spec = [['group_by', 'grp', [['group_by', 'zero', spec[0][2]]]]]
         exp = None
     twice = len(items) <= 3
     sink, ctx, store = harness.run_api(spec, items, track_states=True, twice=twice)
@@ -276,7 +282,7 @@ def run_case(case, acc):
         if 1 in case['flags']:
             acc.count('closing_item')
     elif case['order'] != sorted(case['order']):
-        acc.count('interleaved_keys')
+        acc.count('interleaved_keys_nested' if fam == 'nested' else 'interleaved_keys')
     acc.states.update(ctx.states)
     acc.outcomes.add(fast_hash(repr((case['cfg'], got))))
     if len(exp) >= 2:
@@ -286,7 +292,7 @@ def run_case(case, acc):
 
 def guards(acc, tier):
     msgs = []
-    for name in ('gap_equals_active_timeout', 'gap_equals_inactive_timeout', 'closing_item', 'interleaved_keys'):
+    for name in ('gap_equals_active_timeout', 'gap_equals_inactive_timeout', 'closing_item', 'interleaved_keys', 'interleaved_keys_nested'):
         if acc.counters.get(name, 0) < 1:
             msgs.append('no execution with %s' % name)
     if len(acc.outcomes) < 100:
